@@ -14,6 +14,7 @@
 # limitations under the License.
 # ======================================================================
 
+import re
 import traceback
 from typing import Callable, NoReturn, Optional, Type, Union
 
@@ -714,7 +715,10 @@ class RPCInterface:
         self._check_operating()
         strategy_enum = self._get_starting_strategy(strategy)
         # get the processes whose namespec matches the regex and that are not running
-        processes = self.supvisors.context.find_runnable_processes(regex)
+        try:
+            processes = self.supvisors.context.find_runnable_processes(regex)
+        except re.error as exc:
+            self._raise(Faults.INCORRECT_PARAMETERS, 'start_any_process', f'invalid regex="{regex}"', str(exc))
         # get the first process that allows a starting iaw the strategy, rules and current distribution
         namespec = None
         load_request_map = self.supvisors.starter.get_load_requests()
